@@ -60,6 +60,12 @@ pub fn configs(tier: Tier) -> Vec<Box<dyn Config>> {
         // one key per bucket: absent keys whose probe starts at an EMPTY slot next to tombstones
         v.push(cfg::<PKey, PVal>(Plan::Seq, 31, Some(seeds.clone()), Some(1), tier, "-seeded"));
         v.push(cfg::<TKey, TVal>(Plan::Tail, 30, Some(seeds), Some(1), tier, "-seeded"));
+        // a run of full buckets that starts in the middle of a group and is longer than a group: the second probe
+        // window of a key whose home is inside the run is not group-aligned (keys 69.. share homes with 5..)
+        let run: Vec<MapOp> = (5..33).map(MapOp::Insert).collect();
+        let mut run64 = run.clone();
+        run64.extend((37..60).map(MapOp::Insert));
+        v.push(cfg::<PKey, PVal>(Plan::Seq, 72, Some(vec![run, run64]), Some(1), tier, "-seeded-unaligned-run"));
     } else {
         v.push(cfg::<TKey, TVal>(Plan::Zero, if q { 9 } else { 12 }, None, None, tier, ""));
         v.push(cfg::<PKey, PVal>(Plan::Cluster(2), if q { 4 } else { 6 }, None, None, tier, ""));
@@ -70,6 +76,10 @@ pub fn configs(tier: Tier) -> Vec<Box<dyn Config>> {
         v.push(cfg::<TKey, TVal>(Plan::Zero, 16, Some(seeds.clone()), Some(if q { 1 } else { 2 }), tier, "-seeded"));
         v.push(cfg::<PKey, PVal>(Plan::Seq, 16, Some(seeds.clone()), Some(1), tier, "-seeded"));
         v.push(cfg::<TKey, TVal>(Plan::Tail, 16, Some(seeds), Some(1), tier, "-seeded"));
+        let run: Vec<MapOp> = (5..19).map(MapOp::Insert).collect();
+        let mut run32: Vec<MapOp> = (5..21).map(MapOp::Insert).collect();
+        run32.extend((23..31).map(MapOp::Insert));
+        v.push(cfg::<PKey, PVal>(Plan::Seq, 40, Some(vec![run, run32]), Some(1), tier, "-seeded-unaligned-run"));
     }
     v
 }
